@@ -28,7 +28,7 @@ def add(n, e): V.append((n, e))
 
 # ---- tapes and hash reductions
 add("draw_first", "LET q == OfInt(1000) IN DrawNZ(<<5, 0>>, q).v = OfInt(5) /\\ DrawNZ(<<5, 0>>, q).tries = 1")
-add("draw_skips", "LET q == OfInt(1000) r == DrawNZ(<<0, 0, 232, 3, 255, 255, 231, 3>>, q) IN r.ok /\\ r.tries = 3 /\\ r.v = OfInt(999)")
+add("draw_skips", "LET q == OfInt(1000) r == DrawNZ(<<0, 0, 232, 3, 255, 255, 231, 3>>, q) IN r.ok /\\ r.tries = 4 /\\ r.v = OfInt(999)")
 add("draw_trim", "LET q == OfInt(1000) r == DrawNZ(<<231, 255>>, q) IN r.ok /\\ r.v = OfInt(999)")      # 0xFFE7 trimmed to 10 bits
 add("draw_none", "~DrawNZ(<<0, 0, 232, 3>>, OfInt(1000)).ok /\\ ~DrawNZ(<<>>, OfInt(1000)).ok")
 add("draw_bits", "LET r == DrawBits(<<0, 0, 255, 255>>, 9) IN r.ok /\\ r.tries = 2 /\\ r.v = OfInt(511)")
@@ -72,10 +72,10 @@ bs2 = "D95DEF43F36A4C73D19399B79FB0C692CF44D615CCE5F45D474E7593D30E70B9B0C3"
 oid = "06092A7000020022651F51"                                 # DER of 1.2.112.0.2.0.34.101.31.81
 Qpt = "<<Num(%s), Num(%s)>>" % (hexo(bQ[:48]), hexo(bQ[48:]))
 add("bign96_pubkey", b96_ctx(b96) + " IN EB!ScalarMulJ(E, Num(%s), G) = %s" % (hexo(bd), Qpt))
-add("bign96_verify", b96_ctx(b96) + " IN B96Verify(E, G, q, %s, BM!Hash(BM!HSlice(0, 13)), %s, %s)" % (hexo(oid), hexo(bs), Qpt))
-add("bign96_verify_det", b96_ctx(b96) + " IN B96Verify(E, G, q, %s, BM!Hash(BM!HSlice(0, 13)), %s, %s)" % (hexo(oid), hexo(bs2), Qpt))
+add("bign96_verify", b96_ctx(b96) + " IN B96Verify(E, G, q, %s, TakeN(BM!Hash(BM!HSlice(0, 13)), 24), %s, %s)" % (hexo(oid), hexo(bs), Qpt))
+add("bign96_verify_det", b96_ctx(b96) + " IN B96Verify(E, G, q, %s, TakeN(BM!Hash(BM!HSlice(0, 13)), 24), %s, %s)" % (hexo(oid), hexo(bs2), Qpt))
 bad = bytearray(bytes.fromhex(bs)); bad[0] ^= 1
-add("bign96_altered", b96_ctx(b96) + " IN ~B96Verify(E, G, q, %s, BM!Hash(BM!HSlice(0, 13)), %s, %s)" % (hexo(oid), seq(bad), Qpt))
+add("bign96_altered", b96_ctx(b96) + " IN ~B96Verify(E, G, q, %s, TakeN(BM!Hash(BM!HSlice(0, 13)), 24), %s, %s)" % (hexo(oid), seq(bad), Qpt))
 
 # ---- dstu B.1 (GF(2^163))
 ds = std("dstu", "1.2.804.2.1.1.1.1.3.1.1.1.2.0")
@@ -102,6 +102,7 @@ add("trace_newton_163", dstu_ctx(ds) + " IN \\A k \\in {0, 1, 2, 80, 162} : GTr(
 add("trace_newton_small", "\\A f \\in {<<7, 1, 0, 0>>, <<9, 4, 0, 0>>, <<8, 4, 3, 1>>, <<13, 4, 3, 1>>} : LET F == DstuField(f) IN \\A x \\in 0..(2 ^ f[1] - 1) : (f[1] > 9 /\\ x % 17 # 3) \\/ (GTr(<<x>>, F) = GTrDef(<<x>>, F))")
 add("gf2_7_trace", "LET F == DstuField(<<7, 1, 0, 0>>) IN Cardinality({x \\in 0..127 : GTr(<<x>>, F) = 0}) = 64 /\\ \\A x \\in 0..127 : GTr(GSqr(<<x>>, F), F) = GTr(<<x>>, F) /\\ GTr(PAdd(GSqr(<<x>>, F), <<x>>), F) = 0")
 # a complete tiny binary curve: the group law closes and every point has order dividing the group order
+add("gred_equals_pmod", dstu_ctx(ds) + " F7 == DstuField(<<7, 1, 0, 0>>) F13 == DstuField(<<13, 4, 3, 1>>) IN GEq(GMul(P[1], P[2], C.F), PMulMod(P[1], P[2], C.F)) /\\ GEq(GSqr(P[2], C.F), PMulMod(P[2], P[2], C.F)) /\\ (\\A a \\in 0..127 : \\A b \\in {3, 77, 127} : GEq(GMul(<<a>>, <<b>>, F7), PMulMod(<<a>>, <<b>>, F7))) /\\ (\\A a \\in {1, 4097, 8191, 5555} : \\A b \\in {8191, 4096, 77} : GEq(GMul(<<a>>, <<b>>, F13), PMulMod(<<a>>, <<b>>, F13)))")
 add("e2_ld_equals_affine", "LET C == [F |-> DstuField(<<5, 2, 0, 0>>), A |-> 1, B |-> <<1>>] C0 == [F |-> DstuField(<<5, 2, 0, 0>>), A |-> 0, B |-> <<5>>] IN \\A cv \\in {C, C0} : LET mm == PDeg(cv.F) pts == {xy \\in (0..(2 ^ mm - 1)) \\X (0..(2 ^ mm - 1)) : E2OnCurve(cv, PNorm(<<xy[1]>>), PNorm(<<xy[2]>>))} IN \\A xy \\in pts : \\A k \\in 0..24 : LET P == <<PNorm(<<xy[1]>>), PNorm(<<xy[2]>>)>> IN E2Mul(cv, OfInt(k), P) = E2MulA(cv, OfInt(k), P)")
 add("e2_ld_B1", dstu_ctx(ds) + " IN E2Mul(C, OfInt(1000003), P) = E2MulA(C, OfInt(1000003), P)")
 add("e2_tiny_group", "LET C == [F |-> DstuField(<<5, 2, 0, 0>>), A |-> 1, B |-> <<1>>] pts == {xy \\in (0..31) \\X (0..31) : E2OnCurve(C, PNorm(<<xy[1]>>), PNorm(<<xy[2]>>))} N == Cardinality(pts) + 1 IN N >= 22 /\\ N <= 44 /\\ \\A xy \\in pts : LET P == <<PNorm(<<xy[1]>>), PNorm(<<xy[2]>>)>> IN E2IsO(E2Mul(C, OfInt(N), P)) /\\ LET D == E2Dbl(C, P) IN E2IsO(D) \\/ E2OnCurve(C, D[1], D[2])")
